@@ -166,16 +166,46 @@ func genFileMgr() {
 
 	fo := src("internal/mode/static/nginx/file/folders.go")
 	var ign []string
-	cl, ok := fo.valueSpec("ignoreFilePaths").(*ast.CompositeLit)
-	if !ok {
-		fail("FileFacts: ignoreFilePaths is not a composite literal")
-	} else {
+	func() {
+		// a tree without this variable (or with a different shape) must not take the other facts of the module down
+		defer func() {
+			if r := recover(); r != nil {
+				ign = nil
+				fail("FileFacts: ignoreFilePaths: %v", r)
+			}
+		}()
+		cl, ok := fo.valueSpec("ignoreFilePaths").(*ast.CompositeLit)
+		if !ok {
+			fail("FileFacts: ignoreFilePaths is not a composite literal")
+			return
+		}
 		for _, e := range cl.Elts {
 			ign = append(ign, fo.strValue(e))
 		}
-	}
+	}()
 	m.strs("ignoreFilePaths", ign, "ignoreFilePaths of file/folders.go (evaluated)")
-	m.strs("clearFoldersSkeleton", fmSkeleton(fo, fo.fn("", "ClearFolders").Body), "control skeleton of ClearFolders")
+	cf := fo.fn("", "ClearFolders")
+	m.strs("clearFoldersSkeleton", fmSkeleton(fo, cf.Body), "control skeleton of ClearFolders")
+	// the test that decides whether an entry is kept (the `if` whose body is a lone `continue`) and the
+	// expression the tested path is built from
+	ignTest, entryExpr := "", ""
+	walk(cf.Body, func(n ast.Node) bool {
+		switch x := n.(type) {
+		case *ast.IfStmt:
+			if len(x.Body.List) == 1 {
+				if b, ok := x.Body.List[0].(*ast.BranchStmt); ok && b.Tok == token.CONTINUE && ignTest == "" {
+					ignTest = fo.text(x.Cond)
+				}
+			}
+		case *ast.AssignStmt:
+			if len(x.Lhs) == 1 && len(x.Rhs) == 1 && fo.text(x.Lhs[0]) == "entryPath" {
+				entryExpr = fo.text(x.Rhs[0])
+			}
+		}
+		return true
+	})
+	m.str("ignoreMatchExpr", ignTest, "condition under which ClearFolders skips (keeps) a directory entry")
+	m.str("entryPathExpr", entryExpr, "how ClearFolders builds the path it tests and removes")
 
 	osf := src("internal/mode/static/nginx/file/os_filemanager.go")
 	var bodies []string
@@ -183,6 +213,14 @@ func genFileMgr() {
 		bodies = append(bodies, name+": "+strings.Join(osf.stmts(osf.fn("StdLibOSFileManager", name).Body), "; "))
 	}
 	m.strs("stdlibBodies", bodies, "bodies of the StdLibOSFileManager methods used by the file manager")
+
+	// ---- how Remove's ENOENT reaches ReplaceFiles: producer (os_filemanager.go) and classifier (manager.go)
+	m.str("removeErrorShape", fmRemoveShape(osf, osf.fn("StdLibOSFileManager", "Remove")),
+		"how StdLibOSFileManager.Remove hands on the error of os.Remove: `direct` (the body is `return os.Remove(name)`), "+
+			"`wrapped-%w` (returned inside fmt.Errorf with a %w verb), `wrapped-opaque` (fmt.Errorf without %w / errors.New) or `other: …`")
+	m.str("notExistTest", fmNotExistTest(mgr, mgr.fn("ManagerImpl", "ReplaceFiles")),
+		"the test ReplaceFiles applies to Remove's error before it `continue`s: `os.IsNotExist` (does not unwrap), "+
+			"`errors.Is` (errors.Is(err, os.ErrNotExist|fs.ErrNotExist), follows %w chains) or `other: …`")
 
 	// ---- generator: folders and every place a path is built from a folder
 	gen := src("internal/mode/static/nginx/config/generator.go")
@@ -279,6 +317,126 @@ func genFileMgr() {
 		"shape of each of those expressions: `folder+/…` (folder constant, then a literal starting with a slash), "+
 			"`join(folder,…)` (filepath.Join with the folder first) or `other`")
 
+	// ---- the generated file SET: every file.File literal (path expression, type), every destination of an
+	// executeResult, the structure of Generate / executeConfigTemplates / getExecuteFuncs, the name formats
+	func() {
+		defer func() {
+			if r := recover(); r != nil {
+				fail("FileFacts (generated set): %v", r)
+			}
+		}()
+		var fileLits, dests []string
+		for _, n := range names {
+			s := src("internal/mode/static/nginx/config/" + n)
+			for _, d := range s.f.Decls {
+				fd, ok := d.(*ast.FuncDecl)
+				if !ok || fd.Body == nil {
+					continue
+				}
+				walk(fd.Body, func(k ast.Node) bool {
+					cl, ok := k.(*ast.CompositeLit)
+					if !ok || cl.Type == nil {
+						return true
+					}
+					switch s.text(cl.Type) {
+					case "file.File":
+						path, typ := "?", "?"
+						for _, e := range cl.Elts {
+							if kv, ok := e.(*ast.KeyValueExpr); ok {
+								switch s.text(kv.Key) {
+								case "Path":
+									path = s.text(kv.Value)
+								case "Type":
+									typ = s.text(kv.Value)
+								}
+							}
+						}
+						if len(cl.Elts) > 0 {
+							fileLits = append(fileLits, n0(s, fd)+": "+path+" | "+typ)
+						}
+					case "executeResult":
+						for _, e := range cl.Elts {
+							if kv, ok := e.(*ast.KeyValueExpr); ok && s.text(kv.Key) == "dest" {
+								dests = append(dests, n0(s, fd)+": "+s.text(kv.Value))
+							}
+						}
+					}
+					return true
+				})
+			}
+		}
+		m.strs("generatedFileLiterals", fileLits,
+			"every non-empty file.File{…} literal of package nginx/config: `<file>:<func>: <Path expression> | <Type expression>`")
+		m.strs("executeDests", dests, "the `dest` of every executeResult{…} literal of package nginx/config")
+		m.strs("generateSkeleton", fmSkeleton(gen, gen.fn("GeneratorImpl", "Generate").Body), "control skeleton of GeneratorImpl.Generate")
+		m.strs("executeConfigTemplatesSkeleton", fmSkeleton(gen, gen.fn("GeneratorImpl", "executeConfigTemplates").Body),
+			"control skeleton of GeneratorImpl.executeConfigTemplates")
+		var execFuncs []string
+		walk(gen.fn("GeneratorImpl", "getExecuteFuncs").Body, func(k ast.Node) bool {
+			if cl, ok := k.(*ast.CompositeLit); ok && gen.text(cl.Type) == "[]executeFunc" {
+				for _, e := range cl.Elts {
+					execFuncs = append(execFuncs, gen.text(e))
+				}
+				return false
+			}
+			return true
+		})
+		m.strs("executeFuncs", execFuncs, "the execute functions of getExecuteFuncs, in order")
+		// include file names of snippets: createSnippetName (state/dataplane) and the NginxContext values
+		dp := src("internal/mode/static/state/dataplane/configuration.go")
+		snFmt, snArgs := "", []string{}
+		for _, c := range dp.calls(dp.fn("", "createSnippetName").Body, "fmt.Sprintf") {
+			snFmt = strLit(c.Args[0])
+			for _, a := range c.Args[1:] {
+				snArgs = append(snArgs, dp.text(a))
+			}
+		}
+		m.raw("snippetNameFmt", "List Char", leanChars(snFmt), "format of createSnippetName (state/dataplane/configuration.go)", snFmt)
+		m.strs("snippetNameArgs", snArgs, "arguments of that Sprintf")
+		sft := src("apis/v1alpha1/snippetsfilter_types.go")
+		var ctxs []string
+		for _, id := range []string{"NginxContextMain", "NginxContextHTTP", "NginxContextHTTPServer", "NginxContextHTTPServerLocation"} {
+			ctxs = append(ctxs, sft.strConst(id))
+		}
+		m.strs("nginxContexts", ctxs, "values of NginxContextMain, …HTTP, …HTTPServer, …HTTPServerLocation (apis/v1alpha1)")
+		obsg := src("internal/mode/static/nginx/config/policies/observability/generator.go")
+		var obsFmts, obsSuffixes []string
+		walk(obsg.f, func(k ast.Node) bool {
+			c, ok := k.(*ast.CallExpr)
+			if !ok {
+				return true
+			}
+			switch obsg.text(c.Fun) {
+			case "fmt.Sprintf":
+				if bl, ok := c.Args[0].(*ast.BasicLit); ok && strings.HasPrefix(strLit(bl), "ObservabilityPolicy_") {
+					obsFmts = append(obsFmts, strLit(bl))
+				}
+			case "buildTemplate":
+				if len(c.Args) == 3 {
+					obsSuffixes = append(obsSuffixes, strLit(c.Args[1]))
+				}
+			}
+			return true
+		})
+		m.strs("obsFileFmts", obsFmts, "file name formats of the ObservabilityPolicy includes")
+		if len(obsFmts) == 2 {
+			m.raw("obsFileFmt", "List Char", leanChars(obsFmts[0]), "the first of them (GenerateForLocation), as characters", obsFmts[0])
+			m.raw("obsIntFileFmt", "List Char", leanChars(obsFmts[1]), "the second (GenerateForInternalLocation), as characters", obsFmts[1])
+		}
+		m.strs("obsFileSuffixes", obsSuffixes, "the fileSuffix arguments of buildTemplate in GenerateForLocation")
+		cspg := src("internal/mode/static/nginx/config/policies/clientsettings/generator.go")
+		var cspFmts []string
+		for _, c := range cspg.calls(cspg.f, "fmt.Sprintf") {
+			if bl, ok := c.Args[0].(*ast.BasicLit); ok {
+				cspFmts = append(cspFmts, strLit(bl))
+			}
+		}
+		m.strs("cspFileFmts", cspFmts, "file name formats of the ClientSettingsPolicy include")
+		if len(cspFmts) == 1 {
+			m.raw("cspFileFmt", "List Char", leanChars(cspFmts[0]), "the same, as characters", cspFmts[0])
+		}
+	}()
+
 	// ---- nginx.conf: the folders NGINX loads globbed includes from
 	conf, err := os.ReadFile(filepath.Join(repo, "internal/mode/static/nginx/conf/nginx.conf"))
 	if err != nil {
@@ -333,6 +491,89 @@ func genFileMgr() {
 		}
 	}
 	m.boolean("clearFoldersErrorReturned", errReturned, "whether StartManager returns when ClearFolders fails")
+}
+
+// fmRemoveShape classifies how Remove returns the error of os.Remove.
+func fmRemoveShape(s *srcFile, fd *ast.FuncDecl) string {
+	if len(fd.Body.List) == 1 {
+		if r, ok := fd.Body.List[0].(*ast.ReturnStmt); ok && len(r.Results) == 1 {
+			if c, ok := r.Results[0].(*ast.CallExpr); ok && s.text(c.Fun) == "os.Remove" {
+				return "direct"
+			}
+		}
+	}
+	if len(s.calls(fd.Body, "os.Remove")) != 1 {
+		return "other: " + strings.Join(s.stmts(fd.Body), "; ")
+	}
+	shape := ""
+	walk(fd.Body, func(n ast.Node) bool {
+		r, ok := n.(*ast.ReturnStmt)
+		if !ok || len(r.Results) != 1 {
+			return true
+		}
+		switch x := r.Results[0].(type) {
+		case *ast.Ident:
+			if x.Name == "nil" {
+				return true
+			}
+			if x.Name == "err" && shape == "" {
+				shape = "direct"
+				return true
+			}
+		case *ast.CallExpr:
+			t := s.text(x.Fun)
+			if t == "fmt.Errorf" && len(x.Args) >= 2 {
+				if bl, ok := x.Args[0].(*ast.BasicLit); ok && strings.Contains(bl.Value, "%w") {
+					shape = "wrapped-%w"
+				} else {
+					shape = "wrapped-opaque"
+				}
+				return true
+			}
+			if t == "errors.New" {
+				shape = "wrapped-opaque"
+				return true
+			}
+		}
+		shape = "other: " + s.text(r)
+		return true
+	})
+	if shape == "" {
+		shape = "other: " + strings.Join(s.stmts(fd.Body), "; ")
+	}
+	return shape
+}
+
+// fmNotExistTest finds, inside the `if err := ….Remove(path); err != nil` of ReplaceFiles, the condition of the `if`
+// whose body ends in `continue`, and classifies it.
+func fmNotExistTest(s *srcFile, fd *ast.FuncDecl) string {
+	res := "other: no tolerated error"
+	walk(fd.Body, func(n ast.Node) bool {
+		outer, ok := n.(*ast.IfStmt)
+		if !ok || outer.Init == nil || !strings.Contains(s.text(outer.Init), ".Remove(") {
+			return true
+		}
+		for _, st := range outer.Body.List {
+			inner, ok := st.(*ast.IfStmt)
+			if !ok || len(inner.Body.List) == 0 {
+				continue
+			}
+			if b, ok := inner.Body.List[len(inner.Body.List)-1].(*ast.BranchStmt); !ok || b.Tok != token.CONTINUE {
+				continue
+			}
+			c := s.text(inner.Cond)
+			switch {
+			case c == "os.IsNotExist(err)":
+				res = "os.IsNotExist"
+			case c == "errors.Is(err, os.ErrNotExist)" || c == "errors.Is(err, fs.ErrNotExist)":
+				res = "errors.Is"
+			default:
+				res = "other: " + c
+			}
+		}
+		return false
+	})
+	return res
 }
 
 func n0(s *srcFile, fd *ast.FuncDecl) string { return filepath.Base(s.path) + ":" + fd.Name.Name }
